@@ -10,7 +10,7 @@ Sub-commands (all write one JSON document to --out and print REPRODUCED / NOT-RE
                              run the real SQLDataStore.M on a scenario battery with SQLAlchemy engine events recording
                              read/write/commit/rollback (+ whether self._lock was held) and compare the method's own
                              connection with a second connection after every exit (pending writes at exit).
-  crash-enum --rpc R[,R..] --out F [--jobs N]
+  crash-enum --rpc R[,R..] --out F [--jobs N] [--points all|between]
                              kill-and-reopen: for every crash point k (before/after every SQL statement, before/after
                              every commit/rollback, and after the acknowledged return) of RPC R on a prepared study, a
                              child process os._exit()s there; a fresh servicer on the same file is then checked for
@@ -456,6 +456,17 @@ def _verify_after_restart(rpc, path, pre, post, label, acked, in_window_expected
                 problems.append('new trial id %s not larger than the existing maximum %d' % (t3.id, mx))
         except Exception as e:
             problems.append('clients cannot continue after restart: %r' % (e,))
+    # a deleted study whose rows were only partly removed: re-creating it brings the old records back
+    if rpc == 'DeleteStudy' and not any(st.name == STUDY for st in studies):
+        left = {tab: len([r for r in snap.get(tab, []) if isinstance(r, dict) and r.get('owner_id') == 'o' and r.get('study_id') == 's'])
+                for tab in ('trials', 'suggestion_operations', 'early_stopping_operations')}
+        if any(left.values()):
+            try:
+                s.CreateStudy(vs.CreateStudyRequest(parent='owners/o', study=study_pb2.Study(display_name='s', study_spec=_study_spec(vz))))
+                back = [t.id for t in s.ListTrials(vs.ListTrialsRequest(parent=STUDY)).trials]
+                problems.append('the study is gone but its rows remain %s: re-creating the study brings back trials %s' % (left, back))
+            except Exception as e:
+                problems.append('the study is gone but its rows remain %s; re-creating it failed: %r' % (left, e))
     if multi and usable is False and not in_window_expected:
         problems.append('interrupted client wedged (operation never done) at a crash point outside the known window')
     return {'point': label, 'problems': problems, 'is_pre': is_pre, 'is_post': is_post, 'usable': usable}
@@ -485,14 +496,20 @@ def crash_enum(a):
         plan[r] = (pre, post['post'], post['points'])
     # 2. one child per crash point (1..N) and the acknowledged point N+1
     futs = {}
+    def selected(points):
+        ks = list(range(1, len(points) + 2))
+        if a.points == 'between':     # only the points right after a write statement or a commit took effect, and the acknowledged return
+            ks = [k for k in ks if k == len(points) + 1 or (points[k - 1].startswith('after ')
+                                                            and points[k - 1].split()[1] in ('INSERT', 'UPDATE', 'DELETE', 'REPLACE', 'COMMIT'))]
+        return ks
     for r, (pre, post, points) in plan.items():
-        for k in range(1, len(points) + 2):
+        for k in selected(points):
             path = os.path.join(OUT, 'enum', r, 'k%02d.db' % k)
             futs[(r, k)] = pool.submit(_run_child, r, k, path)
     for r, (pre, post, points) in plan.items():
         res = []
         window = False
-        for k in range(1, len(points) + 2):
+        for k in selected(points):
             rc, so, se = futs[(r, k)].result()
             path = os.path.join(OUT, 'enum', r, 'k%02d.db' % k)
             label = points[k - 1] if k <= len(points) else 'after the acknowledged return'
@@ -519,7 +536,7 @@ def crash_enum(a):
             v['in_known_window'] = window
             res.append(v)
         nprob = sum(1 for v in res if v['problems'])
-        doc['rpcs'][r] = {'crash_points': len(points) + 1, 'points': res, 'diverging_points': nprob,
+        doc['rpcs'][r] = {'crash_points': len(res), 'crash_points_of_the_call': len(points) + 1, 'points': res, 'diverging_points': nprob,
                           'driver_errors': sum(1 for v in res if v.get('driver_error')),
                           'wedged_points_in_known_window': sum(1 for v in res if v.get('usable') is False and v.get('in_known_window'))}
         doc['divergences'] += nprob
@@ -677,6 +694,7 @@ def main():
     ap.add_argument('--after-ds', dest='after_ds')
     ap.add_argument('--jobs', type=int, default=0)
     ap.add_argument('--keep', action='store_true')
+    ap.add_argument('--points', choices=['all', 'between'], default='all')
     a = ap.parse_args()
     os.makedirs(OUT, exist_ok=True)
     if a.out:
